@@ -166,7 +166,14 @@ fn main() {
             _ => usage(),
         };
         let ctx = Ctx::new(&args[1], tier);
-        run(&args[1], &ctx)
+        // a panic of the subject that no stage caught must not end the process without a word
+        match catch(|| run(&args[1], &ctx)) {
+            Ok(code) => code,
+            Err(p) => {
+                println!("MACHINERY-ERROR uncaught panic while running {}: {}", args[1], p);
+                2
+            }
+        }
     };
     std::process::exit(code);
 }
